@@ -90,6 +90,29 @@ func classifyCompileError(p *synth.Project, out string) string {
 	if p.Features["slice-of-pointers"] && strings.Contains(head, "*") {
 		return "slice-of-pointers-value"
 	}
+	// (3) an unexported type in a route signature: the routes package cannot name it
+	for ci := range p.Controllers {
+		for mi := range p.Controllers[ci].Methods {
+			m := &p.Controllers[ci].Methods[mi]
+			if !m.IsEndpoint() {
+				continue
+			}
+			var ts []synth.T
+			for _, pr := range m.Params {
+				ts = append(ts, pr.Type)
+			}
+			if m.Ret != nil {
+				ts = append(ts, *m.Ret)
+			}
+			for _, t := range ts {
+				b := t.Base()
+				if b.K == "named" && b.Name != "" && b.Name[0] >= 'a' && b.Name[0] <= 'z' &&
+					(strings.Contains(head, "."+b.Name) || strings.Contains(head, "undefined: Param") || strings.Contains(head, "undefined: Response") || strings.Contains(head, "not exported")) {
+					return "unexported-type-in-route-signature"
+				}
+			}
+		}
+	}
 	return "other"
 }
 
